@@ -307,7 +307,8 @@ func calcPositionIfNeededHevc(pkt *RtpPacket) {
 	// +-------------+-----------------+
 
 	outerNaluType := hevc.ParseNaluType(b[0])
-	if _, ok := hevc.NaluTypeMapping[outerNaluType]; ok {
+	// rfc7798 4.4.1: every type below 48 is a single nal unit packet (48 = AP, 49 = FU, 50 = PACI)
+	if outerNaluType < NaluTypeHevcAp {
 		pkt.positionType = PositionTypeSingle
 		return
 	}
